@@ -10,7 +10,11 @@ ENGINES = [
      "kind_free_text": "mmap arenas with PROT_NONE pages before and after; SetPanicOnFault turns a stray access by Go or assembly into a recoverable panic with Addr()"},
 ]
 NOT_APPLICABLE_REASONS = {}
-ENGINES.append({"name": "gotrace", "path": "/verif/harness/trace + /verif/harness/cmd/vxinstr (-mode trace)", "serves_properties": ["C08"],
+ENGINES.append({"name": "asmfootprint", "path": "/verif/tools/asmfootprint.py + /verif/tools/gdbfootprint.py", "serves_properties": ["C11", "C17"],
+     "kind_free_text": "gdb single-steps every amd64 assembly routine on known buffers and records every written byte range (store width from the mnemonic / register operand, enabled lanes of AVX-512 masked stores from the live mask register); each range must lie inside the destination, the scratch block or the stack"})
+ENGINES.append({"name": "coldstart", "path": "/verif/harness/vx/cold.go", "serves_properties": ["C04", "C05", "C09", "C12", "C15", "C17"],
+     "kind_free_text": "re-executes the test binary so that an entry point is the first use of the library in a fresh process, alone and by eight goroutines leaving a spin barrier together; every entry point x {alone, concurrent} x N processes is enumerated"})
+ENGINES.append({"name": "gotrace", "path": "/verif/harness/trace + /verif/harness/cmd/vxinstr (-mode trace)", "serves_properties": ["C08", "C09"],
      "kind_free_text": "source-to-source trace instrumentation (block entries, short-circuit operands, values of non-constant indices/slice bounds) + static attribution of calls leaving the module to the block that makes them; exhaustive enumeration of secret alphabets with a trace-equality oracle"})
 ENGINES.append({"name": "asmtaint", "path": "/verif/tools/asmtaint.py + /verif/tools/asmtrace.py + /verif/tools/gdbtrace.py", "serves_properties": ["C09"],
      "kind_free_text": "explicit-state exploration of an abstract taint machine whose program is the assembler's own listing (`go tool asm -S`) of every .s file of the current tree, for amd64 and arm64; concrete gdb single-step traces of the amd64 routines are replayed against the model CFG and compared across two fillings of all secret inputs"})
@@ -105,4 +109,29 @@ _ADD = {
  "C20": " DecomposeNAF call histories: every ordered pair of calls over seven lengths x three widths, the first call also with a too-short output slice (panics half way).",
 }
 for _k, _v in _ADD.items():
+    TEXT[_k]["level_text"] += _v
+
+# additions after the fourth round (DESIGN.md 8.6)
+_ADD4 = {
+ "C01": " Keys d and n-d in alternation; za handed over as the head of a record that continues with the key material.",
+ "C02": " One key buffer reloaded with other keys between calls; a witness nonce whose x1 lies within 2^224 of 2^256 with digests around 2n-x1.",
+ "C03": " 1300 (thorough 5000) distinct public keys in one process followed by a second visit of the first ones; keys d and n-d in alternation with their own and each other's signatures.",
+ "C04": " A cold-start part runs every way into the hash as the first use of the package in a fresh process, alone and from eight goroutines at once.",
+ "C05": " Cold-start parts (accelerated and portable build): every entry point, including the AEAD constructors followed by block operations, as the first use in a fresh process, alone and concurrently.",
+ "C06": " Every input is the head of a longer record with non-zero bytes behind it; additional data / plaintext / nonce of every length 1..50 ending at every offset -15..16 around the boundary between two mapped pages.",
+ "C07": " The same difference applied to every pair of tag bytes, all tag bytes and whole words of the tag; every ciphertext ends (or starts) flush against an inaccessible page.",
+ "C09": " The first cipher of a process is traced in one fresh process per key.",
+ "C10": " Bytes behind the result inside the destination's capacity keep their fill; every Open is repeated on a forged message (error, nil result, prefix / header / inputs untouched).",
+ "C11": " Arguments also end 1..16 bytes before the inaccessible page and -15..15 bytes around the boundary of two mapped pages; destinations with spare capacity keep it; an asm-footprint part single-steps every amd64 routine under gdb and checks every written byte range (mask-aware) against destination, scratch block and stack.",
+ "C12": " A cold-start part (each entry point as the first use of package sm2 in a fresh process); key operations after verification traffic with tiny r+s.",
+ "C13": " za passed as the head of a record with the key material behind it; Sign with a valid public key that does not belong to the private key; the empty id spelled nil / empty / zero-length slice.",
+ "C14": " The same multiplications with crypto/rand.Reader replaced by sources delivering all ones / zero / p / n.",
+ "C15": " Receivers with an earlier life (decoded, generator, result of an addition, infinity) for every operation with all conversions of the result checked; a cold-start part.",
+ "C16": " MultiSelect into an element that backs an entry of the table and into an element whose encoding / zero test / big-integer form had been used before.",
+ "C17": " Parts cold-concurrent (eight goroutines released together into the first use of package sm2, in fresh processes, under the race detector) and asm-footprint (write footprint of every amd64 routine by gdb single-stepping: a store that rewrites bytes behind the destination is reported although it changes no value).",
+ "C18": " Part derivation-programs: the repository's own generator (make_table.go with its tablegen helpers) is run in the scratch copy and must reproduce every numeric literal of the shipped tables.",
+ "C19": " Every case a second time with the scripted reader installed as crypto/rand.Reader and passed as such; failures with errors of other dynamic types (Temporary, Timeout, EAGAIN, *os.PathError, wrapped, ErrNoProgress, ErrUnexpectedEOF); a 60-second watchdog reports calls that never return.",
+ "C20": " Digit buffers longer than n (first n entries checked, the rest untouched).",
+}
+for _k, _v in _ADD4.items():
     TEXT[_k]["level_text"] += _v
